@@ -179,6 +179,17 @@ pub fn check_adjacency<D: Clone>(g: &GraphV<D>, t: &Table, closed: bool) -> R {
                 }
             }
             let got = n.edges(side);
+            // l_edges() / r_edges() are the same query under another name
+            let acc = match side {
+                Side::L => &n.ledges_acc,
+                Side::R => &n.redges_acc,
+            };
+            let (mut a, mut b) = (got.clone(), acc.clone());
+            a.sort();
+            b.sort();
+            if a != b {
+                bail!("edge-accessor-differs", "node {} = {} side {:?}: edges(dir) reports {:?} but the l_edges()/r_edges() accessor {:?}", i, node_str(g, i), side, got, acc);
+            }
             if got.len() != expect_lists.len() {
                 bail!("edge-count", "node {} = {} side {:?}: {} edges reported, {} extensions resolve", i, node_str(g, i), side, got.len(), expect_lists.len());
             }
